@@ -612,12 +612,11 @@ struct TypeRunner {
     const std::size_t size = sizer.GetSize(v);
     WResult full = encode_all(v, {}, false);
     if (!full.ok) return;
-    {
-      std::string refs;
-      for (std::size_t i = 0; i < full.pushed.size(); i++) { if (i) refs += ','; refs += std::to_string(i); }
-      c.line('M', "enc " + tid + " " + dump_str(v, false) + " " + (refs.empty() ? "-" : refs));
-      c.line('I', enc_result(full));
-    }
+    std::string cap_refs;
+    for (std::size_t i = 0; i < full.pushed.size(); i++) { if (i) cap_refs += ','; cap_refs += std::to_string(i); }
+    if (cap_refs.empty()) cap_refs = "-";
+    c.line('M', "enc " + tid + " " + dump_str(v, false) + " " + cap_refs);
+    c.line('I', enc_result(full));
     std::vector<std::size_t> caps;
     if (size <= 200 || (c.thorough && size <= 3000)) for (std::size_t k = 0; k <= size + 1; k++) caps.push_back(k);
     else {
@@ -642,10 +641,16 @@ struct TypeRunner {
         if (!why.empty())
           c.line('X', std::string("C06 capacity type=") + tid + " writer=" + wk_name[wk] + " cap=" + std::to_string(cap) + " size=" + std::to_string(size) +
                           " why=" + why + " val=" + dump_str(v, false));
+        if (wk == W_PED) {   // the call-level writer model (Snk with this capacity) against the checked writer
+          c.line('M', "wcap " + tid + " " + std::to_string(cap) + " - " + dump_str(v, false) + " " + cap_refs);
+          c.line('I', r.ok ? "ok " + hex(r.bytes) : std::string("err ") + status_name(r.err) + " " + std::to_string(r.reported));
+        }
       }
       // BoundedWriter with a generous budget over a buffer of `cap` bytes
       {
         WResult r = write_bounded(v, size + 8, cap, {});
+        c.line('M', "wcap " + tid + " " + std::to_string(cap) + " " + std::to_string(size + 8) + " " + dump_str(v, false) + " " + cap_refs);
+        c.line('I', r.ok ? "ok " + hex(r.bytes) : std::string("err ") + status_name(r.err) + " " + std::to_string(r.reported));
         bool want_ok = cap >= size;
         if (!r.guard_ok || r.ok != want_ok || (!want_ok && r.reported != 0))
           c.line('X', "C06 capacity type=" + tid + " writer=bounded-over-small-buffer cap=" + std::to_string(cap) + " size=" + std::to_string(size) +
